@@ -112,7 +112,7 @@ package kms
 
 //@ func (*AWSKMS).EncryptKey
 //@   names m, ctx, keyBytes
-//@   facet C17, C10
+//@   facet C17, C10, C03
 //@   safety C17
 //@   opt no-frame
 //@   requires m != nil && m.Crypto != nil
